@@ -954,7 +954,7 @@ Proof.
   - split; auto.
 Qed.
 
-Lemma SInv_sinit : forall l held ev0 sp, SInv (sinit l held ev0 sp).
+Lemma SInv_sinit : forall l held ev0 sp, SInv (sinit l None held ev0 sp).
 Proof. intros. constructor; cbn; auto; try discriminate; try (intros; discriminate). Qed.
 
 Lemma Inv_B_init : forall si so, SInv si -> SInv so -> d_wready si = false \/ True ->
@@ -976,13 +976,13 @@ Qed.
     Nothing is relayed twice, nothing vanishes. *)
 Lemma bridge_conservation :
   forall q li hi ei spi lo ho eo spo sched x d,
-    let s := brun (mkBC false q) sched (binit2 (sinit li hi ei spi) (sinit lo ho eo spo)) in
+    let s := brun (mkBC false q) sched (binit2 (sinit li None hi ei spi) (sinit lo None ho eo spo)) in
     d_rpc (bside d s) <> BR_Dead
     /\ cnt x (ball d s) = cnt x (match d with DIn => hi ++ ei ++ msgs_of (concat spi)
                                           | DOut => ho ++ eo ++ msgs_of (concat spo) end).
 Proof.
   intros q li hi ei spi lo ho eo spo sched x d s.
-  assert (H0 : Inv_B (binit2 (sinit li hi ei spi) (sinit lo ho eo spo)))
+  assert (H0 : Inv_B (binit2 (sinit li None hi ei spi) (sinit lo None ho eo spo)))
     by (apply Inv_B_init; auto using SInv_sinit).
   destruct (brun_conserves (mkBC false q) sched _ x eq_refl H0) as (HI & E). fold s in HI, E.
   split.
@@ -994,7 +994,7 @@ Qed.
 (** The full statement, and what refutes it. *)
 Definition bridge_relays_exactly_once_per_direction_statement : Prop :=
   forall li hi ei spi lo ho eo spo sched,
-    let s := brun (mkBC false false) sched (binit2 (sinit li hi ei spi) (sinit lo ho eo spo)) in
+    let s := brun (mkBC false false) sched (binit2 (sinit li None hi ei spi) (sinit lo None ho eo spo)) in
     bquiet s = true ->
     d_peer (b_in s) = hi ++ ei ++ msgs_of (concat spi)
     /\ d_peer (b_out s) = ho ++ eo ++ msgs_of (concat spo).
@@ -1058,6 +1058,14 @@ Definition past_unlock (d : dir) (p : bapc) : bool :=
 Definition b5_pc (d : dir) (p : bapc) : bool :=
   match p with BU_5 d' => dir_eqb d d' | _ => false end.
 
+(** The filter of side [d]'s device has been reset (B1 / B2 of DESIGN Appendix A). *)
+Definition past_F (d : dir) (p : bapc) : bool :=
+  match p with
+  | BA_F1 => false
+  | BA_F2 => match d with DIn => true | DOut => false end
+  | _ => true
+  end.
+
 Definition drained_pc (d : dir) (p : bapc) : bool :=
   match p with BU_6 d' | BU_5 d' => dir_eqb d d' | _ => false end.
 
@@ -1065,7 +1073,8 @@ Definition drained_pc (d : dir) (p : bapc) : bool :=
 Record QA (held : list msg) (sp : list chunk) (d : dir) (s : bstate) : Prop := mkQA {
   qa_idle : d_wire (bside d s) = [] /\ d_spont (bside d s) = sp /\ d_rpc (bside d s) = BR_Read
             /\ d_rbuf (bside d s) = [] /\ d_ev_o (bside d s) = [] /\ d_cpc (bside d s) = CC_Get
-            /\ d_ev_w (bside d s) = [] /\ d_xpc (bside d s) = X_Get /\ d_filt (bside d s) = None;
+            /\ d_ev_w (bside d s) = [] /\ d_xpc (bside d s) = X_Get
+            /\ (past_F d (b_apc s) = true -> d_filt (bside d s) = None);
   qa_conn : stage_conn d (b_apc s) = true -> d_conn (bside d s) = true;
   qa_ready : ready_by d (b_apc s) = true -> d_wready (bside d s) = true;
   qa_eq : d_peer (bside d s) ++ ahand d (b_apc s) ++ d_lq (bside d s) = held;
@@ -1188,10 +1197,11 @@ Proof. auto. Qed.
 
 Lemma QB_of_QA : forall h sp d s,
   QA h sp d s -> d_conn (bside d s) = true -> d_wready (bside d s) = true ->
-  d_lq (bside d s) = [] -> ahand d (b_apc s) = [] -> d_peer (bside d s) = d_peer (bside d s) ->
+  d_lq (bside d s) = [] -> ahand d (b_apc s) = [] -> past_F d (b_apc s) = true ->
   QB h sp (bside d s).
 Proof.
-  intros h sp d s [(E1 & E2 & E3 & E4 & E5 & E6 & E7 & E8 & E9) _ _ Heq _ _ _ _] Hc Hw Hq Ha _.
+  intros h sp d s [(E1 & E2 & E3 & E4 & E5 & E6 & E7 & E8 & E9) _ _ Heq _ _ _ _] Hc Hw Hq Ha Hf.
+  specialize (E9 Hf).
   constructor; auto.
   - intros p m E. rewrite E3 in E. discriminate.
   - rewrite E3. discriminate.
@@ -1254,11 +1264,11 @@ Proof.
   - auto.
 Qed.
 
-Lemma QInv_init : forall li hi spi lo ho spo,
+Lemma QInv_init : forall li fi hi spi lo fo ho spo,
   (li = false -> hi = []) -> (lo = false -> ho = []) ->
-  QInv hi ho spi spo (binit2 (sinit li hi [] spi) (sinit lo ho [] spo)).
+  QInv hi ho spi spo (binit2 (sinit li fi hi [] spi) (sinit lo fo ho [] spo)).
 Proof.
-  intros li hi spi lo ho spo Hi Ho. unfold QInv. cbn.
+  intros li fi hi spi lo fo ho spo Hi Ho. unfold QInv. cbn.
   split; constructor; cbn; auto; try (intros; discriminate); repeat split; auto.
 Qed.
 
@@ -1276,28 +1286,28 @@ Qed.
     held followed by what the device emitted -- so at quiescence every message has been
     relayed exactly once and in order. *)
 Lemma bridge_quiet_link :
-  forall li hi spi lo ho spo sched,
+  forall li fi hi spi lo fo ho spo sched,
     (li = false -> hi = []) -> (lo = false -> ho = []) ->
-    let s := brun (mkBC false true) sched (binit2 (sinit li hi [] spi) (sinit lo ho [] spo)) in
+    let s := brun (mkBC false true) sched (binit2 (sinit li fi hi [] spi) (sinit lo fo ho [] spo)) in
     bdone s = true ->
     QB hi spi (b_in s) /\ QB ho spo (b_out s).
 Proof.
-  intros li hi spi lo ho spo sched Hi Ho s Hd.
+  intros li fi hi spi lo fo ho spo sched Hi Ho s Hd.
   assert (H : QInv hi ho spi spo s).
   { apply QInv_run. apply QInv_init; auto. }
   unfold QInv in H. rewrite Hd in H. exact H.
 Qed.
 
 Lemma bridge_quiet_link_quiescent :
-  forall li hi spi lo ho spo sched,
+  forall li fi hi spi lo fo ho spo sched,
     (li = false -> hi = []) -> (lo = false -> ho = []) ->
-    let s := brun (mkBC false true) sched (binit2 (sinit li hi [] spi) (sinit lo ho [] spo)) in
+    let s := brun (mkBC false true) sched (binit2 (sinit li fi hi [] spi) (sinit lo fo ho [] spo)) in
     bquiet s = true ->
     d_peer (b_in s) = hi ++ msgs_of (concat spi) /\ d_peer (b_out s) = ho ++ msgs_of (concat spo).
 Proof.
-  intros li hi spi lo ho spo sched Hi Ho s Hq.
+  intros li fi hi spi lo fo ho spo sched Hi Ho s Hq.
   unfold bquiet in Hq. apply andb_true_iff in Hq as [Hq Hq2]. apply andb_true_iff in Hq as [Hd Hq1].
-  destruct (bridge_quiet_link li hi spi lo ho spo sched Hi Ho Hd) as (H1 & H2). fold s in H1, H2.
+  destruct (bridge_quiet_link li fi hi spi lo fo ho spo sched Hi Ho Hd) as (H1 & H2). fold s in H1, H2.
   assert (L : forall h sp x, QB h sp x -> squiet x = true -> d_peer x = h ++ msgs_of (concat sp)).
   { intros h sp x [_ _ Hrb _ Heq] Q. unfold squiet in Q. unfold shand_x, shand_r in Heq.
     destruct (d_rpc x) eqn:Er; try discriminate. destruct (d_cpc x); try discriminate.
@@ -1330,7 +1340,168 @@ Definition nvq_sched : list baction :=
 
 Lemma nonvacuous_quiet :
   let s := brun (mkBC false true) nvq_sched
-             (binit2 (sinit true nvq_hi [] [[Some (mkMsg 7 4 false)]]) (sinit true nvq_ho [] [[Some (mkMsg 0 13 true)]])) in
+             (binit2 (sinit true None nvq_hi [] [[Some (mkMsg 7 4 false)]]) (sinit true (Some 3) nvq_ho [] [[Some (mkMsg 0 13 true); Some (mkMsg 3 14 false)]])) in
   bquiet s = true
-  /\ d_peer (b_in s) = nvq_hi ++ [mkMsg 7 4 false] /\ d_peer (b_out s) = nvq_ho ++ [mkMsg 0 13 true].
+  /\ d_peer (b_in s) = nvq_hi ++ [mkMsg 7 4 false] /\ d_peer (b_out s) = nvq_ho ++ [mkMsg 0 13 true; mkMsg 3 14 false].
 Proof. vm_compute. repeat split; reflexivity. Qed.
+
+(** ---- synchronous mode across mode transitions ------------------------------------------------ *)
+
+(** Accounting of everything the connector I/O thread has taken from the events queue, for ANY
+    script (any sequence of enable_synchronous(...) / wait_packet / lock / unlock / commands),
+    any schedule: processed normally, retrieved by wait_packet, waiting in the synchronous queue,
+    discarded by the queue clear of an enable_synchronous call (by design), dropped by
+    add_sync_event because the mode was switched OFF between its tests, or in the thread's
+    hands. *)
+Definition sync_account (s : state) : list msg :=
+  delivered s ++ got s ++ sync_q s ++ cleared s ++ dropped s ++ hand_c s.
+
+Definition Inv_A (s : state) : Prop := forall x, cnt x (taken s) = cnt x (sync_account s).
+
+Lemma Inv_A_ext : forall s s',
+  taken s' = taken s -> delivered s' = delivered s -> got s' = got s -> sync_q s' = sync_q s ->
+  cleared s' = cleared s -> dropped s' = dropped s -> c_pc s' = c_pc s -> Inv_A s -> Inv_A s'.
+Proof.
+  intros s s' E1 E2 E3 E4 E5 E6 E7 H x. unfold sync_account, hand_c. rewrite E1, E2, E3, E4, E5, E6, E7. apply H.
+Qed.
+
+Lemma pstep_frame_A2 : forall cfg p m s,
+  let s' := fst (pstep cfg p m s) in
+  taken s' = taken s /\ delivered s' = delivered s /\ got s' = got s /\ sync_q s' = sync_q s /\
+  cleared s' = cleared s /\ dropped s' = dropped s /\ c_pc s' = c_pc s /\ sync_mode s' = sync_mode s
+  /\ a_script s' = a_script s /\ a_pc s' = a_pc s.
+Proof. intros cfg [] m s; cbn; repeat split; auto. Qed.
+
+Ltac a_tac :=
+  unfold sync_account, hand_c; cbn;
+  rewrite ?cnt_app, ?cnt_nil;
+  repeat match goal with
+         | |- context [cnt ?x (?m :: ?l)] =>
+             lazymatch l with [] => fail | _ => rewrite (cnt_cons x m l) end
+         end;
+  rewrite ?cnt_app, ?cnt_nil;
+  repeat match goal with
+         | H : context [cnt ?x (?m :: ?l)] |- _ =>
+             lazymatch l with [] => fail | _ => rewrite (cnt_cons x m l) in H end
+         end;
+  try lia.
+
+Lemma Inv_A_act : forall cfg a s, Inv_A s -> Inv_A (act cfg a s).
+Proof.
+  intros cfg [[]| |] s H; cbn [act step].
+  - (* application thread *)
+    unfold step_A, ret, a_finish, note_head, v_next.
+    destruct (a_pc s) eqn:Ea;
+      try (destruct (pstep_frame_A2 cfg p m s) as (E1 & E2 & E3 & E4 & E5 & E6 & E7 & _));
+      split_match; try exact H;
+      try (apply (Inv_A_ext s); cbn; auto; fail).
+    all: intro x; specialize (H x); unfold sync_account, hand_c in H; rewrite ?cnt_app in H;
+      a_tac; rewrite ?Heql in *; a_tac.
+  - unfold step_W. split_match; first [exact H | (apply (Inv_A_ext s); auto)].
+  - unfold step_R. destruct (r_pc s) as [|p m|]; try exact H.
+    + destruct (wire s); first [exact H | (apply (Inv_A_ext s); auto)].
+    + destruct (pstep_frame_A2 cfg p m s) as (E1 & E2 & E3 & E4 & E5 & E6 & E7 & _).
+      destruct (snd (pstep cfg p m s)); first [exact H | (apply (Inv_A_ext s); auto)].
+  - (* connector I/O thread *)
+    unfold step_C. destruct (has_conn cfg); cbn [negb]; try exact H.
+    destruct (c_pc s) eqn:Ec; split_match; try exact H.
+    all: intro x; specialize (H x); unfold sync_account, hand_c in H; rewrite Ec in H; rewrite ?cnt_app, ?cnt_nil in H;
+      a_tac; rewrite ?Heql in *; a_tac.
+  - exact H.
+  - unfold emit. destruct (spont s); first [exact H | (apply (Inv_A_ext s); auto)].
+Qed.
+
+(** sync_transitions_account: under every schedule, for every script. *)
+Lemma sync_transitions_account :
+  forall cfg script sp l0 sched x,
+    let s := run cfg sched (init cfg script sp l0) in
+    cnt x (taken s) = cnt x (delivered s ++ got s ++ sync_q s ++ cleared s ++ dropped s ++ hand_c s).
+Proof.
+  intros cfg script sp l0 sched x s.
+  assert (H : Inv_A s).
+  { apply run_invariant; [intros; apply Inv_A_act; auto|]. intro y. unfold sync_account, hand_c, init. cbn. reflexivity. }
+  apply H.
+Qed.
+
+(** No packet is silently dropped by add_sync_event as long as the application only ENABLES
+    synchronous mode (OFF -> PKT, OFF -> ALL, PKT -> ALL, ALL -> PKT, in any order, any number of
+    times): whatever the interleaving of the two mode tests of on_device_event and the two mode
+    tests of add_sync_event with the application's stores. *)
+Definition enable_only (o : op) : Prop := match o with OSync m => m <> 0 | _ => True end.
+
+Definition c_syncpc (p : cpc) : bool :=
+  match p with CC_S1 _ | CC_S2 _ | CC_SPut _ => true | _ => false end.
+
+Record Inv_D (s : state) : Prop := mkInvD {
+  dd_none : dropped s = [];
+  dd_mode : c_syncpc (c_pc s) = true -> 1 <= sync_mode s;
+  dd_script : Forall enable_only (a_script s);
+  dd_e : e_pc (a_pc s) = true -> exists m t, a_script s = OSync m :: t
+}.
+
+Lemma a_begin_e : forall cfg sc, e_pc (a_begin cfg sc) = true -> exists m t, sc = OSync m :: t.
+Proof.
+  intros cfg [|[] ?]; cbn; intros; try discriminate; eauto;
+    repeat match goal with H : context [if ?b then _ else _] |- _ => destruct b end; discriminate.
+Qed.
+
+Lemma Inv_D_ext : forall s s',
+  dropped s' = dropped s -> sync_mode s' = sync_mode s -> c_pc s' = c_pc s -> a_script s' = a_script s ->
+  (e_pc (a_pc s') = true -> e_pc (a_pc s) = true) -> Inv_D s -> Inv_D s'.
+Proof. intros s s' E1 E2 E3 E4 E5 []. constructor; rewrite ?E1, ?E2, ?E3, ?E4; auto. Qed.
+
+Lemma Inv_D_finish : forall cfg s s1,
+  dropped s1 = dropped s -> (1 <= sync_mode s -> 1 <= sync_mode s1) -> c_pc s1 = c_pc s -> a_script s1 = a_script s ->
+  Inv_D s -> Inv_D (a_finish cfg s1).
+Proof.
+  intros cfg s s1 E1 E2 E3 E4 []. unfold a_finish. constructor; cbn; rewrite ?E1, ?E3, ?E4; auto.
+  - destruct (a_script s); cbn; auto. inversion dd_script0; auto.
+  - apply a_begin_e.
+Qed.
+
+Lemma Inv_D_act : forall cfg a s, Inv_D s -> Inv_D (act cfg a s).
+Proof.
+  intros cfg [[]| |] s H; cbn [act step].
+  - (* application thread *)
+    unfold step_A, ret, note_head, v_next.
+    destruct (a_pc s) eqn:Ea;
+      try (destruct (pstep_frame_A2 cfg p m s) as (E1 & E2 & E3 & E4 & E5 & E6 & E7 & E8 & E9 & E10));
+      split_match; try exact H;
+      try (apply (Inv_D_ext s); cbn; auto; try (intros; discriminate); fail);
+      try (match goal with |- Inv_D (a_finish _ ?s1) => apply (Inv_D_finish cfg s s1); cbn; auto; fail end).
+    all: try (apply (Inv_D_ext s); cbn; auto; rewrite Ea; auto; fail).
+    all: try (match goal with |- Inv_D (a_finish _ ?s1) => apply (Inv_D_finish cfg s s1); cbn; auto; fail end).
+    all: destruct H as [D1 D2 D3 D4]; destruct (D4 ltac:(rewrite Ea; reflexivity)) as (m0 & t & Esc);
+      assert (Hm : 1 <= cur_mode s)
+        by (unfold cur_mode; rewrite Esc in *; inversion D3 as [|? ? Hh _]; subst; cbn in Hh; lia).
+    all: first [ constructor; cbn; auto; intros _; exists m0, t; auto
+               | match goal with |- Inv_D (a_finish _ ?s1) =>
+                   apply (Inv_D_finish cfg s s1); cbn; auto; constructor; auto end ].
+  - unfold step_W. split_match; first [exact H | (apply (Inv_D_ext s); auto)].
+  - unfold step_R. destruct (r_pc s) as [|p m|]; try exact H.
+    + destruct (wire s); first [exact H | (apply (Inv_D_ext s); auto)].
+    + destruct (pstep_frame_A2 cfg p m s) as (E1 & E2 & E3 & E4 & E5 & E6 & E7 & E8 & E9 & E10).
+      destruct (snd (pstep cfg p m s)); first [exact H | (apply (Inv_D_ext s); cbn; auto; rewrite ?E10; auto)].
+  - (* connector I/O thread *)
+    unfold step_C. destruct (has_conn cfg); cbn [negb]; try exact H.
+    destruct H as [D1 D2 D3 D4].
+    destruct (c_pc s) eqn:Ec; split_match; try (constructor; auto; rewrite ?Ec; auto; fail);
+      constructor; cbn; auto; try (intros; discriminate);
+      try (intros _; first [ (apply N.eqb_eq in Heqb; lia) | (apply N.leb_le in Heqb; lia)
+                           | (apply N.eqb_eq in Heqb0; lia) | (apply D2; reflexivity) ]);
+      try (exfalso; specialize (D2 eq_refl); apply N.leb_gt in Heqb; lia).
+  - constructor; destruct H; auto.
+  - unfold emit. destruct (spont s); first [exact H | (apply (Inv_D_ext s); auto)].
+Qed.
+
+Lemma sync_enable_never_drops :
+  forall cfg script sp l0 sched,
+    Forall enable_only script ->
+    dropped (run cfg sched (init cfg script sp l0)) = [].
+Proof.
+  intros cfg script sp l0 sched Hs.
+  assert (H : Inv_D (run cfg sched (init cfg script sp l0))).
+  { apply run_invariant; [intros; apply Inv_D_act; auto|].
+    constructor; unfold init; cbn; auto; [intros; discriminate | apply a_begin_e]. }
+  destruct H; auto.
+Qed.
